@@ -1,7 +1,7 @@
 import Qryn.Proofs.InternalSpec
-/-! `| json name="path"` with one parameter: the streaming walk of `jsonPathProcessor` sets the label to the
-    scalar `LogQL.Stages.lookupPath` finds (for a key that occurs twice: the last occurrence leading to a
-    scalar), on documents the decoder reads to the end. Core only. -/
+/-! `| json name="path"`: following the path (`LogQL.Stages.lookupPath`) finds the text of the LAST value of the document
+    (document order, a composite before its members) whose address is the path — the link between the reading by lookup
+    and the document-order definition `jsonPathFound`. Label-map lemmas (`set`, `get`). Core only. -/
 namespace Qryn.Read
 open Qryn Qryn.LogQL.Stages
 
@@ -17,6 +17,42 @@ theorem set_set (l : Labels) (k x y : Bytes) : (l.set k x).set k y = l.set k y :
       · simp [h1, h2, Labels.set]
       · simp [h1, h2, Labels.set, ih]
 
+theorem get_nil (k : Bytes) : Labels.get [] k = [] := rfl
+
+theorem get_set_self (l : Labels) (k x : Bytes) : (l.set k x).get k = x := by
+  induction l with
+  | nil => simp [Labels.set, Labels.get, List.lookup]
+  | cons p rest ih =>
+    obtain ⟨k', v'⟩ := p
+    simp only [Labels.set]
+    by_cases h1 : k' = k
+    · simp [h1, Labels.get, List.lookup]
+    · by_cases h2 : k < k'
+      · simp [h1, h2, Labels.get, List.lookup]
+      · have hne : (k == k') = false := by simpa using fun e : k = k' => h1 e.symm
+        simp only [h1, h2, if_false, Labels.get, List.lookup, hne]
+        exact ih
+
+theorem get_set_ne (l : Labels) (k k2 x : Bytes) (h : k2 ≠ k) : (l.set k x).get k2 = l.get k2 := by
+  induction l with
+  | nil =>
+    have : (k2 == k) = false := by simpa using h
+    simp [Labels.set, Labels.get, List.lookup, this]
+  | cons p rest ih =>
+    obtain ⟨k', v'⟩ := p
+    simp only [Labels.set]
+    by_cases h1 : k' = k
+    · subst h1
+      have : (k2 == k') = false := by simpa using h
+      simp [Labels.get, List.lookup, this]
+    · by_cases h2 : k < k'
+      · have : (k2 == k) = false := by simpa using h
+        simp [h1, h2, Labels.get, List.lookup, this]
+      · simp only [h1, h2, if_false, Labels.get, List.lookup]
+        cases hk : k2 == k' with
+        | true => rfl
+        | false => exact ih
+
 /-- the label after the walk, given what the path leads to -/
 def setFound (l : Labels) (n : Bytes) : Option Bytes → Labels
   | some x => l.set n x
@@ -26,129 +62,148 @@ theorem setFound_setFound (l : Labels) (n : Bytes) (a b : Option Bytes) :
     setFound (setFound l n a) n b = setFound l n (match b with | some y => some y | none => a) := by
   cases a <;> cases b <;> simp [setFound, set_set]
 
-theorem aheadsFor_single (seg : PathSeg) (n : Bytes) (p : List PathSeg) :
-    aheadsFor seg [(n, p)] = match p with | s :: rest => if s = seg then [(n, rest)] else [] | [] => [] := by
-  cases p with
+/-- the text of the last value in the list whose address is `p` -/
+def lastAt : List (List PathSeg × Bytes) → List PathSeg → Option Bytes
+  | [], _ => none
+  | pv :: rest, p =>
+    match lastAt rest p with
+    | some x => some x
+    | none => if pv.1 = p then some pv.2 else none
+
+theorem lastAt_append (a b : List (List PathSeg × Bytes)) (p : List PathSeg) :
+    lastAt (a ++ b) p = match lastAt b p with | some x => some x | none => lastAt a p := by
+  induction a with
+  | nil => simp only [List.nil_append, lastAt]; cases lastAt b p <;> rfl
+  | cons pv rest ih =>
+    simp only [List.cons_append, lastAt, ih]
+    cases lastAt b p <;> rfl
+
+theorem lastAt_map_nil (seg : PathSeg) (lv : List (List PathSeg × Bytes)) :
+    lastAt (lv.map (fun pv => (seg :: pv.1, pv.2))) [] = none := by
+  induction lv with
   | nil => rfl
-  | cons s rest => by_cases h : s = seg <;> simp [aheadsFor, h]
+  | cons pv rest ih => simp [lastAt, ih]
 
-theorem setAll_single (l : Labels) (n : Bytes) (p : List PathSeg) (v : Bytes) :
-    setAll l [(n, p)] v = if p.isEmpty then l.set n v else l := by
-  simp [setAll]
+theorem lastAt_map_cons (seg seg' : PathSeg) (r : List PathSeg) (lv : List (List PathSeg × Bytes)) :
+    lastAt (lv.map (fun pv => (seg :: pv.1, pv.2))) (seg' :: r) = if seg = seg' then lastAt lv r else none := by
+  induction lv with
+  | nil => simp [lastAt]
+  | cons pv rest ih =>
+    simp only [List.map_cons, lastAt, ih]
+    by_cases h : seg = seg'
+    · subst h
+      simp only [if_true, List.cons.injEq, true_and]
+    · simp [h]
 
-/-- where the array walk is: elements from index `j` on -/
-def lookupFrom (xs : JList) (j : Nat) : List PathSeg → Option Bytes
-  | .idx i :: r => if j ≤ i then lookupList xs (i - j) r else none
-  | _ => none
+/-- one parameter: the document-order pass leaves the text of the last value at its path -/
+theorem foldl_setMatching_single (n : Bytes) (p : List PathSeg) (lv : List (List PathSeg × Bytes)) (l : Labels) :
+    lv.foldl (setMatching [(n, p)]) l = setFound l n (lastAt lv p) := by
+  induction lv generalizing l with
+  | nil => rfl
+  | cons pv rest ih =>
+    simp only [List.foldl_cons, ih, lastAt]
+    simp only [setMatching, List.foldl_cons, List.foldl_nil]
+    by_cases h : p = pv.1
+    · have h' : pv.1 = p := h.symm
+      simp only [h, if_true]
+      cases hl : lastAt rest pv.1 with
+      | none => rfl
+      | some x => simp [setFound, set_set]
+    · have h' : ¬ pv.1 = p := fun e => h e.symm
+      simp only [h, h', if_false]
+      cases lastAt rest p <;> rfl
 
-def lookupKey (kvs : JKvs) : List PathSeg → Option Bytes
-  | .key k :: r => lookupKvs kvs k r
-  | _ => none
+/-! ### `lookupPath` finds the last value at the path -/
+theorem kvs_no_root (kvs : JKvs) : lastAt (pleavesKvs kvs) [] = none := by
+  cases kvs with
+  | nil => rfl
+  | cons k v rest => simp only [pleavesKvs, lastAt_append, kvs_no_root rest, lastAt_map_nil]
+
+theorem arr_no_root (i : Nat) (xs : JList) : lastAt (pleavesArr i xs) [] = none := by
+  cases xs with
+  | nil => rfl
+  | cons v rest => simp only [pleavesArr, lastAt_append, arr_no_root (i + 1) rest, lastAt_map_nil]
+
+theorem kvs_no_idx (kvs : JKvs) (i : Nat) (r : List PathSeg) : lastAt (pleavesKvs kvs) (.idx i :: r) = none := by
+  cases kvs with
+  | nil => rfl
+  | cons k v rest => simp [pleavesKvs, lastAt_append, kvs_no_idx rest i r, lastAt_map_cons]
+
+theorem arr_no_key (j : Nat) (xs : JList) (k : Bytes) (r : List PathSeg) : lastAt (pleavesArr j xs) (.key k :: r) = none := by
+  cases xs with
+  | nil => rfl
+  | cons v rest => simp [pleavesArr, lastAt_append, arr_no_key (j + 1) rest k r, lastAt_map_cons]
+
+theorem arr_no_lower (j : Nat) (xs : JList) (m : Nat) (hm : m < j) (r : List PathSeg) :
+    lastAt (pleavesArr j xs) (.idx m :: r) = none := by
+  cases xs with
+  | nil => rfl
+  | cons v rest =>
+    have h1 : ¬ j = m := by omega
+    simp [pleavesArr, lastAt_append, arr_no_lower (j + 1) rest m (by omega) r, lastAt_map_cons, h1]
 
 mutual
-theorem jppVal_single (n : Bytes) (p : List PathSeg) (l : Labels) (v : JVal) (hb : hasBad v = false) :
-    jppVal [(n, p)] (l, true) v = (setFound l n (lookupPath v p), true) := by
+theorem lookupPath_last (v : JVal) (p : List PathSeg) : lookupPath v p = lastAt (pleavesVal v) p := by
   cases v with
-  | obj kvs =>
-    simp only [jppVal, List.isEmpty_cons, Bool.false_eq_true, if_false]
-    rw [jppKvs_single n p l kvs (by simpa [hasBad] using hb)]
+  | obj text kvs =>
     cases p with
-    | nil => simp [lookupKey, lookupPath]
-    | cons s r => cases s <;> simp [lookupKey, lookupPath]
-  | arr xs =>
-    simp only [jppVal, List.isEmpty_cons, Bool.false_eq_true, if_false]
-    rw [jppArr_single n p l xs 0 (by simpa [hasBad] using hb)]
-    cases p with
-    | nil => simp [lookupFrom, lookupPath]
-    | cons s r => cases s <;> simp [lookupFrom, lookupPath]
-  | str s =>
-    simp only [jppVal, setAll_single]
-    cases p <;> simp [lookupPath, setFound]
-  | raw t =>
-    simp only [jppVal, setAll_single]
-    cases p <;> simp [lookupPath, setFound]
-  | bad => simp [hasBad] at hb
-theorem jppKvs_single (n : Bytes) (p : List PathSeg) (l : Labels) (kvs : JKvs) (hb : hasBadKvs kvs = false) :
-    jppKvs [(n, p)] (l, true) kvs = (setFound l n (lookupKey kvs p), true) := by
-  cases kvs with
-  | nil => cases p with
-    | nil => simp [jppKvs, lookupKey, setFound]
-    | cons s r => cases s <;> simp [jppKvs, lookupKey, lookupKvs, setFound]
-  | cons k v rest =>
-    have hbv : hasBad v = false := by
-      simp only [hasBadKvs, Bool.or_eq_false_iff] at hb; exact hb.1
-    have hbr : hasBadKvs rest = false := by
-      simp only [hasBadKvs, Bool.or_eq_false_iff] at hb; exact hb.2
-    simp only [jppKvs, aheadsFor_single]
-    cases p with
-    | nil =>
-      simp only [List.isEmpty_nil, if_true, hbv, Bool.not_false]
-      rw [jppKvs_single n [] l rest hbr]
-      simp [lookupKey]
-    | cons s r =>
-      by_cases hs : s = PathSeg.key k
-      · subst hs
-        simp only [if_true, List.isEmpty_cons, Bool.false_eq_true, if_false]
-        rw [jppVal_single n r l v hbv]
-        simp only [if_true]
-        rw [jppKvs_single n (PathSeg.key k :: r) _ rest hbr, setFound_setFound]
-        simp only [lookupKey, lookupKvs, if_true]
-        cases lookupKvs rest k r <;> rfl
-      · simp only [hs, if_false, List.isEmpty_nil, if_true, hbv, Bool.not_false]
-        rw [jppKvs_single n (s :: r) l rest hbr]
-        cases s with
-        | key k' =>
-          have : ¬ k = k' := fun e => hs (by rw [e])
-          simp only [lookupKey, lookupKvs, this, if_false]
-          cases lookupKvs rest k' r <;> rfl
-        | idx i => simp [lookupKey]
-theorem jppArr_single (n : Bytes) (p : List PathSeg) (l : Labels) (xs : JList) (j : Nat) (hb : hasBadList xs = false) :
-    jppArr [(n, p)] j (l, true) xs = (setFound l n (lookupFrom xs j p), true) := by
-  cases xs with
-  | nil => cases p with
-    | nil => simp [jppArr, lookupFrom, setFound]
+    | nil => simp [lookupPath, pleavesVal, lastAt, kvs_no_root]
     | cons s r =>
       cases s with
-      | key k => simp [jppArr, lookupFrom, setFound]
-      | idx i => by_cases h : j ≤ i <;> simp [jppArr, lookupFrom, lookupList, setFound, h]
-  | cons v rest =>
-    have hbv : hasBad v = false := by
-      simp only [hasBadList, Bool.or_eq_false_iff] at hb; exact hb.1
-    have hbr : hasBadList rest = false := by
-      simp only [hasBadList, Bool.or_eq_false_iff] at hb; exact hb.2
-    simp only [jppArr, aheadsFor_single]
+      | key k =>
+        simp only [lookupPath, pleavesVal, lastAt, lookupKvs_last kvs k r]
+        cases lastAt (pleavesKvs kvs) (.key k :: r) <;> simp
+      | idx i => simp [lookupPath, pleavesVal, lastAt, kvs_no_idx]
+  | arr text xs =>
     cases p with
-    | nil =>
-      simp only [List.isEmpty_nil, if_true, hbv, Bool.not_false]
-      rw [jppArr_single n [] l rest (j + 1) hbr]
-      simp [lookupFrom]
+    | nil => simp [lookupPath, pleavesVal, lastAt, arr_no_root]
     | cons s r =>
-      by_cases hs : s = PathSeg.idx j
-      · subst hs
-        simp only [if_true, List.isEmpty_cons, Bool.false_eq_true, if_false]
-        rw [jppVal_single n r l v hbv]
-        simp only [if_true]
-        rw [jppArr_single n (PathSeg.idx j :: r) _ rest (j + 1) hbr, setFound_setFound]
-        have : ¬ (j + 1 ≤ j) := by omega
-        simp [lookupFrom, this, lookupList]
-      · simp only [hs, if_false, List.isEmpty_nil, if_true, hbv, Bool.not_false]
-        rw [jppArr_single n (s :: r) l rest (j + 1) hbr]
-        cases s with
-        | key k => simp [lookupFrom]
-        | idx i =>
-          have hij : ¬ i = j := fun e => hs (by rw [e])
-          simp only [lookupFrom]
-          by_cases h1 : j + 1 ≤ i
-          · have h2 : j ≤ i := by omega
-            have h3 : i - j = (i - (j + 1)) + 1 := by omega
-            simp [h1, h2, h3, lookupList]
-          · have h2 : ¬ j ≤ i := by omega
-            simp [h1, h2]
+      cases s with
+      | key k => simp [lookupPath, pleavesVal, lastAt, arr_no_key]
+      | idx i =>
+        simp only [lookupPath, pleavesVal, lastAt]
+        have := lookupList_last xs i 0 r
+        simp only [Nat.zero_add] at this
+        rw [this]
+        cases lastAt (pleavesArr 0 xs) (.idx i :: r) <;> simp
+  | str s => cases p <;> simp [lookupPath, pleavesVal, lastAt]
+  | raw t => cases p <;> simp [lookupPath, pleavesVal, lastAt]
+  | bad => cases p <;> simp [lookupPath, pleavesVal, lastAt]
+theorem lookupKvs_last (kvs : JKvs) (k : Bytes) (r : List PathSeg) :
+    lookupKvs kvs k r = lastAt (pleavesKvs kvs) (.key k :: r) := by
+  cases kvs with
+  | nil => rfl
+  | cons k' v rest =>
+    simp only [lookupKvs, pleavesKvs, lastAt_append, lookupKvs_last rest k r, lastAt_map_cons, lookupPath_last v r]
+    cases lastAt (pleavesKvs rest) (.key k :: r) with
+    | some x => rfl
+    | none =>
+      by_cases h : k' = k
+      · subst h; simp
+      · have : ¬ PathSeg.key k' = PathSeg.key k := fun e => h (PathSeg.key.inj e)
+        simp [h, this]
+theorem lookupList_last (xs : JList) (i j : Nat) (r : List PathSeg) :
+    lookupList xs i r = lastAt (pleavesArr j xs) (.idx (j + i) :: r) := by
+  cases xs with
+  | nil => rfl
+  | cons v rest =>
+    cases i with
+    | zero =>
+      simp only [lookupList, pleavesArr, lastAt_append, Nat.add_zero, lastAt_map_cons, if_true, lookupPath_last v r,
+        arr_no_lower (j + 1) rest j (by omega) r]
+    | succ i' =>
+      have h1 : ¬ j = j + (i' + 1) := by omega
+      have h2 : PathSeg.idx j ≠ PathSeg.idx (j + (i' + 1)) := fun e => h1 (PathSeg.idx.inj e)
+      simp only [lookupList, pleavesArr, lastAt_append, lastAt_map_cons, h2, if_false]
+      rw [lookupList_last rest i' (j + 1) r]
+      have : j + 1 + i' = j + (i' + 1) := by omega
+      rw [this]
+      cases lastAt (pleavesArr (j + 1) rest) (.idx (j + (i' + 1)) :: r) <;> rfl
 end
 
-theorem jsonParams_single (n : Bytes) (p : List PathSeg) (doc : JVal) (l : Labels) (hb : hasBad doc = false) :
-    jsonParams [(n, p)] doc l = jsonParamLabels [(n, p)] doc l := by
-  simp only [jsonParams, jppVal_single n p l doc hb, jsonParamLabels, List.foldl_cons, List.foldl_nil, setFound]
-  cases lookupPath doc p <;> rfl
+/-- **one parameter**: the document-order definition leaves what following the path finds -/
+theorem jsonPathFound_single (n : Bytes) (p : List PathSeg) (doc : JVal) :
+    jsonPathFound [(n, p)] doc = setFound [] n (lookupPath doc p) := by
+  simp only [jsonPathFound, foldl_setMatching_single, lookupPath_last]
 
 end Qryn.Read
